@@ -115,7 +115,7 @@ def long_map(n, gap_cycle=(1, 2)):
 def plan(tier, seed):
     L = 4 if tier == "quick" else 5
     maps = HMAPS[:3] if tier == "quick" else HMAPS
-    shards = [("table",)] + [("longtable", n) for n in LONG] + [("hugetable", n) for n in (257, 300, 1025, 1100)] + [("longhist", n, k) for n in (10, 18, 40) for k in KINDS]
+    shards = [("optimised", ("-O",)), ("optimised", ("-OO",)), ("table",)] + [("longtable", n) for n in LONG] + [("hugetable", n) for n in (257, 300, 1025, 1100)] + [("longhist", n, k) for n in (10, 18, 40) for k in KINDS]
     for mi in range(len(maps)):
         for k in KINDS:
             for t0 in TICKS:
@@ -154,6 +154,13 @@ ACCEPT = ["consistent", ["raises", "ValueError"]]
 
 
 def run_shard(shard, ctx):
+    if shard[0] == "optimised":
+        from .. import core
+        import sys
+
+        sub = [("table",), ("longtable", 10)] + [("hist", 0, k, t0, 3) for k in ("section", "N6", "S") for t0 in (0, 6, 20)]
+        core.run_in_other_interpreter(ctx, sys.modules[__name__], sub, shard[1], "hint table of the short maps and of a 10-event map; histories of <= 3 ticks for sections, held notes and phrases")
+        return
     if shard[0] == "longhist":
         # histories on a long tempo map: ticks around its beginning, middle and end
         _, n, kind = shard
